@@ -217,6 +217,9 @@ func (run *PropRun) report(w *World, t0 time.Time) int {
 		if r.Ob.Kind == "map-range-order" && id != "C11" && id != "C01" {
 			continue // iteration-order dependence is decided under C11
 		}
+		if r.Ob.Kind == "decreases" && (id == "C04" || id == "C19") {
+			continue // termination is decided under C05
+		}
 		total++
 		if r.Status == "unsat" {
 			discharged++
@@ -241,7 +244,22 @@ func (run *PropRun) report(w *World, t0 time.Time) int {
 		}
 		nviol++
 		path := fmt.Sprintf("/verif/replays/%s/%s.txt", id, sanitize(r.Ob.Name))
-		confirmed := writeReplay(w, r, path, id)
+		site := stripOcc(r.Ob.Name)
+		if i := strings.Index(site, "@"); i > 0 {
+			site = site[:i]
+		}
+		var confirmed bool
+		if prev, ok := replayDone[site]; ok {
+			// same site reached through another path: one replay stands for all of them
+			confirmed = prev.confirmed
+			data, _ := os.ReadFile(prev.path)
+			os.WriteFile(path, append([]byte(fmt.Sprintf("obligation: %s (same site as %s, replay shared)\n", r.Ob.Name, prev.path)), data...), 0o644)
+		} else if len(replayDone) >= maxReplays {
+			os.WriteFile(path, []byte(fmt.Sprintf("property: %s\nobligation: %s\nclaim: %s\nstatus: %s (%s)\n\nno-failing-input-found: replay not attempted (more than %d distinct failing sites in this run)\n", id, r.Ob.Name, r.Ob.Desc, r.Status, r.Solver, maxReplays)), 0o644)
+		} else {
+			confirmed = writeReplay(w, r, path, id)
+			replayDone[site] = replayRec{path, confirmed}
+		}
 		suffix := ""
 		if !confirmed {
 			suffix = " no-failing-input-found"
@@ -316,6 +334,15 @@ func (run *PropRun) report(w *World, t0 time.Time) int {
 	fmt.Printf("%s %s: %d obligations, %d discharged, %d violations, %.1fs\n", id, run.Tier, total, discharged, nviol, time.Since(t0).Seconds())
 	return exit
 }
+
+type replayRec struct {
+	path      string
+	confirmed bool
+}
+
+var replayDone = map[string]replayRec{}
+
+const maxReplays = 4
 
 func stripOcc(name string) string {
 	if i := strings.LastIndex(name, "#"); i > 0 {
